@@ -422,6 +422,18 @@ def run(ck, m):
               'a rewritten entry becomes New or Updated' if okg else
               'the state of a rewritten entry can be %s (the old state handed through): a set / increment on a removed key stores the new value '
               'still marked Deleted — keys hides it and the next increment treats it as absent' % sorted(vs), '%s:%s' % (ub.file, ub.line))
+        # ... and only an entry that is NOT on disk stays New: the table of the function over the four states, by path enumeration.
+        # `remove` drops a New entry from memory without a tombstone and the snapshot appends a New entry as a fresh key record; an entry that
+        # has a record on disk (Ok, Updated, Deleted) answered New is removed without a trace (the full synchronisation sends no
+        # replicate-remove, a restart brings the key back) or gets a second key record
+        table = state_table(P, ub)
+        want = {'New': {'New'}}
+        badt = {st_: sorted(res) for st_, res in table.items() if res != want.get(st_, {'Updated'})}
+        ck.ob('C01.g', short(ub.id), 'only-an-unsaved-entry-stays-new', bool(table) and not badt,
+              'state after a write: New -> New, Ok / Updated / Deleted -> Updated' if table and not badt else
+              'state after a write: %s (expected New -> New, every state that has a record on disk -> Updated): a rewritten tombstone marked New '
+              'is dropped by the next remove without leaving a tombstone — the key is back after a restart and the full synchronisation never '
+              'tells the other nodes to remove it' % (badt or 'the function could not be tabulated'), '%s:%s' % (ub.file, ub.line))
     # ---- (h) success implies the mutator ran ------------------------------------------------
     from props import repl
     d, sw = m.dispatcher()
@@ -462,6 +474,7 @@ def run(ck, m):
                   '%s:%s' % (cb.file, cb.line))
     ck.floor('C01.h', nh, 3, 'mutation arm closures')
 
+
     # ---- C01.i: the command text reaches the parser with nothing but its line end removed ---------
     # The value is the tail of the line: a blank-stripping call between the transport and the parser
     # (trim, trim_end, split_whitespace…) changes what `set k "v  "` stores, and what increment accepts.
@@ -498,6 +511,34 @@ def run(ck, m):
                   '`set k "v  "` stores "v" and `set k "5 "` becomes a number that increment accepts — get returns a value that was never written'
                   % extra, eb.loc(x))
     ck.floor('C01.i', ne, 1, 'request entries that call the parser')
+    # ... and inside Request::parse: what reaches the parser of the command word is the text it was handed, cut only at the first blanks
+    # (splitn / split_once keep the tail whole), with line breaks and the terminating `;` removed — a `split(';')`, a trim, a case change
+    # between the two shortens or alters the value that `set` stores (`set style color:red;margin:0` would store `color:red`)
+    KEEP_TAIL = ('std::str::splitn', 'std::str::split_once')
+    npar = 0
+    for pb in [b for b in P.user_bodies() if b.id.endswith('Request>::parse') and b.kind != 'closure']:
+        for x, tx in pb.calls():
+            if not tx['f'].get('ind') or not tx['args']:
+                continue
+            npar += 1
+            extra = []
+            for c in sorted(backward_slice(pb, tx['args'][-1])[0]):
+                tc = pb.term(c)
+                dcl = callee_decl(tc)
+                if dcl in IDENT or dcl in KEEP_TAIL or is_log(tc) or not (dcl.startswith('std::str::') or dcl.startswith('std::string::String::')):
+                    continue
+                if dcl in PATTERNED or dcl == 'std::str::replace':
+                    pats = [const_val(r) for a_ in tc['args'][1:2] for r in origins(pb, a_) if r[0] == 'const']
+                    tail_only = dcl in ('std::str::trim_end_matches', 'std::str::strip_suffix')
+                    okset = set('\r\n;') if tail_only else set('\r\n')
+                    if pats and all((p_ in (10, 13) or (p_ == 59 and tail_only)) or (isinstance(p_, str) and p_ and set(p_) <= okset) for p_ in pats):
+                        continue
+                extra.append(dcl.split('::')[-1])
+            ck.ob('C01.i', short(pb.id), 'parser-gets-the-whole-tail', not extra,
+                  'Request::parse hands the parser of the command word the text it received, cut only at the first blanks' if not extra else
+                  'Request::parse applies %s to the command text before the parser of the command word sees it: a value is the tail of the line, '
+                  'whatever it contains — `set k a;b` is acknowledged and stores `a`, get returns a value that was never written' % extra, pb.loc(x))
+    ck.floor('C01.i', npar, 1, 'calls of a registered parser in Request::parse')
     removal_rechecks(ck, m)
 
 
@@ -535,3 +576,89 @@ def removal_rechecks(ck, m):
                   'key that a client has set again since; the acknowledged set is lost (get answers <Empty>, keys no longer lists it)'
                   % short(b.id), b.loc(bi))
     ck.floor('C01.j', n, 2, 'removals from Database.map')
+
+
+
+def state_table(P, ub):
+    """{state variant: set of answered variants} of a (&Value) -> ValueStatus function, by enumeration of its paths.  Tests understood: a
+    switch on the discriminant of self.state, and PartialEq::eq / ne of self.state with a constant variant; any other branch counts for
+    every state (both ways)."""
+    adt = P.adts.get('nundb::bo::ValueStatus')
+    if not adt:
+        return {}
+    variants = [v['name'] for v in adt['variants']]
+    discr = {str(v['discr']): v['name'] for v in adt['variants']}
+    table = {v: set() for v in variants}
+
+    def is_state(place):
+        fs = [e for e in place.get('p', ()) if e[0] == 'f']
+        rs = core.place_origins(ub, place)
+        return any(r[0] == 'param' and r[1] == 1 and [q[2] for q in r[-1] if q[0] == 'f'][-1:] == ['state'] for r in rs)
+    # bool locals that hold `state == V` / `state != V`
+    tests = {}
+    for bi, t in ub.calls():
+        d = callee_decl(t)
+        if d in ('std::cmp::PartialEq::eq', 'std::cmp::PartialEq::ne') and len(t['args']) == 2 and not t['d'].get('p'):
+            sides = []
+            for a in t['args']:
+                pl = a.get('c') or a.get('m')
+                vs_ = {core.const_of(r).get('variant') for r in origins(ub, a) if r[0] == 'const' and isinstance(core.const_of(r), dict)}
+                sides.append(('state', None) if pl and is_state(pl) else ('const', vs_) if len(vs_) == 1 and None not in vs_ else ('?', None))
+            kinds = [k_ for k_, _ in sides]
+            if sorted(kinds) == ['const', 'state']:
+                v = [x for k_, x in sides if k_ == 'const'][0]
+                tests[t['d']['l']] = (list(v)[0], d.endswith('::eq'))
+
+    def walk(bi, possible, result, seen):
+        if bi in seen or ub.blocks[bi].get('cleanup'):
+            return
+        seen = seen | {bi}
+        for s_ in ub.blocks[bi]['s']:
+            if s_['k'] == 'assign' and s_['l']['l'] == 0 and not s_['l'].get('p'):
+                rv = s_['r']
+                if rv['k'] == 'agg':
+                    result = {rv.get('variant')}
+                else:
+                    result = {(core.const_of(r).get('variant') if r[0] == 'const' and isinstance(core.const_of(r), dict) else
+                               ub.blocks[r[1]]['s'][r[2]]['r'].get('variant') if r[0] == 'agg' else '?')
+                              for r in origins(ub, rv.get('o', {'k': None})) } if rv['k'] == 'use' else {'?'}
+        t = ub.term(bi)
+        if t['k'] == 'return':
+            for v in possible:
+                table[v] |= set(result or {'?'})
+            return
+        if t['k'] == 'switch':
+            o = t['o']
+            pl = o.get('c') or o.get('m')
+            handled = False
+            if pl and not pl.get('p'):
+                if pl['l'] in tests:
+                    v, is_eq = tests[pl['l']]
+                    for val, tb in t['targets']:
+                        truth = str(val) != '0'
+                        walk(tb, possible & ({v} if truth == is_eq else set(variants) - {v}), result, seen)
+                    # the `otherwise` edge is the remaining truth value
+                    listed = {str(val) != '0' for val, _ in t['targets']}
+                    for truth in ({True, False} - listed):
+                        walk(t['else'], possible & ({v} if truth == is_eq else set(variants) - {v}), result, seen)
+                    handled = True
+                else:
+                    for (dbi, dsi, kind, rv) in ub.defs().get(pl['l'], []):
+                        if kind == 'assign' and rv['k'] == 'discr' and is_state(rv['p']):
+                            used = set()
+                            for val, tb in t['targets']:
+                                vn = discr.get(str(val))
+                                used.add(vn)
+                                walk(tb, possible & {vn}, result, seen)
+                            walk(t['else'], possible - used, result, seen)
+                            handled = True
+                            break
+            if not handled:
+                for x in ub.succ(bi):
+                    walk(x, possible, result, seen)
+            return
+        for x in ub.succ(bi):
+            if not ub.blocks[x].get('cleanup'):
+                walk(x, possible, result, seen)
+    walk(0, set(variants), set(), frozenset())
+    return {k: v for k, v in table.items()}
